@@ -14,7 +14,7 @@
 //
 // SPDX-License-Identifier: Apache-2.0
 
-use super::{EmissionSnapshot, Mutator};
+use super::{should_mutate, EmissionSnapshot, Mutator};
 use crate::generator::{EntropySource, GenerationSource};
 use crate::opcodes::OpcodeKind;
 
@@ -190,7 +190,7 @@ impl Mutator for TypeConfusionMutator {
         source: &mut GenerationSource,
         rate: f64,
     ) -> bool {
-        if !self.unsafe_mode || source.gen_f64() > rate {
+        if !self.unsafe_mode || !should_mutate(source, rate) {
             return false;
         }
 
